@@ -9,8 +9,10 @@ EXTENDS GopherPlus, MC_C15_B1
 
 CONSTANTS MaxLines,     \* sidecar contents: up to this many lines
           Tokens,       \* line alphabet
-          Kinds,        \* item kinds that can have sidecars: subset of {"file","dir","zipfile","zipdir"}
+          Kinds,        \* item kinds that can have sidecars: subset of {"file","dir","zipfile","zipdir","mapfile","mapdir"}
+          ContentKinds, \* item kinds over which sidecar CONTENTS are enumerated
           ContentIdx,   \* indexes into EaExts of the sidecars whose content is enumerated
+          MsgSizes,     \* approximate body sizes of mail messages
           Exts, Sizes   \* file-name extensions / document sizes for the +VIEWS and + families
 
 \* line alphabets (defined here: TLC cfg files do not interpret \t inside strings)
@@ -29,25 +31,34 @@ DefaultContent(i) == [p |-> TRUE, lines |-> <<"text of " \o EaExts[i].name, "  s
 
 BigLines == [i \in 1..620 |-> "line " \o ToString(i) \o " ........................"]     \* about 22 KB
 Forms == {"bang", "dollar"}
+AllForms == Forms \cup {"plus"}
 FileKinds == Kinds \cap {"file", "zipfile"}
 ExtFor(k) == IF k \in {"file", "zipfile"} THEN "q1" ELSE ""
-CaseOf(fam, k, e, n, f, sc) == [fam |-> fam, kind |-> k, ext |-> e, size |-> n, form |-> f, sc |-> sc]
+\* body: what the document's bytes are made of - "ascii", "8bit" (UTF-8 text, for messages with a declared charset and
+\* Content-Transfer-Encoding: 8bit), "8bithdr" (messages only: a raw 8-bit Subject header)
+CaseOf(fam, k, e, n, f, sc) == [fam |-> fam, kind |-> k, ext |-> e, size |-> n, form |-> f, sc |-> sc, body |-> "ascii"]
+DocCase(fam, k, e, n, f, b) == [fam |-> fam, kind |-> k, ext |-> e, size |-> n, form |-> f, sc |-> NoSc, body |-> b]
 
 \* the case families, enumerated by nested quantifiers (no big set is built)
 InitCase ==
     \/ \E k \in Kinds, f \in Forms, S \in SUBSET (1..NExt) :
           c = CaseOf("subsets", k, ExtFor(k), 6, f, [i \in 1..NExt |-> IF i \in S THEN DefaultContent(i) ELSE Absent])
-    \/ \E k \in Kinds, f \in Forms, j \in ContentIdx, n \in 0..MaxLines, b \in BOOLEAN :
+    \/ \E k \in ContentKinds, f \in Forms, j \in ContentIdx, n \in 0..MaxLines, b \in BOOLEAN :
           \E ls \in [1..n -> Tokens] :
              /\ WellFormedContent(ls, b) /\ (n = 0 => b)
              /\ c = CaseOf("content", k, ExtFor(k), 6, f,
                           [i \in 1..NExt |-> IF i = j THEN [p |-> TRUE, lines |-> ls, nl |-> b] ELSE Absent])
-    \/ \E k \in FileKinds, e \in Exts, n \in Sizes, f \in Forms \cup {"plus"} : c = CaseOf("size", k, e, n, f, NoSc)
-    \/ \E f \in Forms \cup {"plus"} : c = CaseOf("msg", "msg", "", 0, f, NoSc)
+    \* documents of every size and make-up, through `!`, `$` and `+`
+    \/ \E k \in FileKinds, e \in Exts, n \in Sizes, f \in AllForms, b \in {"ascii", "8bit"} : c = DocCase("size", k, e, n, f, b)
+    \/ \E n \in Sizes, f \in AllForms, b \in {"ascii", "8bit"} : c = DocCase("size", "gzfile", "txt", n, f, b)
+    \* virtual items: n is the approximate size of the message body
+    \/ \E k \in MsgKinds, n \in MsgSizes, f \in AllForms, b \in {"ascii", "8bit", "8bithdr"} : c = DocCase("msg", k, "", n, f, b)
+    \* menus, through all three forms: a `+` answer is judged whatever kind of item it is for
+    \/ \E k \in MenuKinds \cap (Kinds \cup {"dir"}), f \in AllForms : c = DocCase("menu", k, "", 0, f, "ascii")
     \/ \E k \in FileKinds, f \in Forms :        \* one sidecar beyond the 20 KB readlines() hint (Cap20K)
           c = CaseOf("big", k, ExtFor(k), 6, f, [i \in 1..NExt |-> IF i = 1 THEN [p |-> TRUE, lines |-> BigLines, nl |-> TRUE] ELSE Absent])
 
-Stripped(k, e) == k \in {"file", "zipfile"} /\ B1_ExtStrip # "none" /\ MimeOf(e) # ""   \* UMN.prep_entriesappend
+Stripped(k, e) == k \in {"file", "zipfile", "gzfile"} /\ B1_ExtStrip # "none" /\ MimeOf(e) # ""   \* UMN.prep_entriesappend
 SizeOf(x) == IF KnownSize(x.kind) THEN x.size ELSE -1
 Front(s) == SubSeq(s, 1, Len(s) - 1)
 Present(x) == {i \in 1..NExt : x.sc[i].p}
@@ -95,7 +106,9 @@ M_BigShape == \A i \in Present(c) : TotalLen(c.sc[i].lines) >= Hint =>
 M_LastBlankLineLost == Done => \A k \in 1..Len(PresentSeq) :
                      LET s == c.sc[PresentSeq[k]] IN
                      (Printable(s.lines) /\ LastBlank(s.lines)) => out.sblocks[k].lines = Prefixed(Front(RefLines(s.lines)))
-M_ViewsTruthful == Done => ViewsLineOk(out.views, MimesOf(c.kind, c.ext), SizeOf(c))
+M_ViewsTruthful == Done => ViewsLineOk(out.views, MimesOf(c.kind, c.ext), SizeOf(c), KnownSize(c.kind))
+\* an entry without a size never states one and never announces a length (virtual items, decompressed files, menus)
+M_NoSizeNoClaim == Done => (~KnownSize(c.kind) => (out.len = "+-2" /\ ~TX!Contains(out.views, "<")))
 M_LenOrMarker == Done => LenOrMarker(out.len, IF SizeOf(c) >= 0 THEN SizeOf(c) ELSE 0, SizeOf(c))
 M_InfoFirst == Done => Len(out.names) >= 3 /\ out.names[1] = "+INFO" /\ out.names[2] = "+ADMIN"
 
